@@ -93,6 +93,9 @@ def _run_from(binary, args, cases, start, budget, mem_bytes, errpath, env):
                     break
                 buf += rest
         p.wait()
+        if inflight is None and p.returncode == 7:
+            # the child reported a hang of case idx itself (per-request watchdog) and left
+            return out, idx, "selfhang", ""
         if inflight is not None:
             return out, idx, "crash", _crash_text(errpath)
         if p.returncode != 0 and idx + 1 < len(cases):
@@ -123,7 +126,9 @@ def supervise(binary, args, cases, workdir, name, budget=30, mem_bytes=4 << 30, 
         if at is None:
             break
         cid = cases[at]["id"]
-        if why == "hang":
+        if why == "selfhang":
+            pass        # the result line is already in `out`
+        elif why == "hang":
             # re-run alone before it counts
             o2, at2, why2, text2 = _run_from(binary, args, [cases[at]], 0, budget, mem_bytes, errpath, env)
             if at2 is None and cid in o2:
